@@ -23,6 +23,7 @@ GOALS = {   # goal -> (writers, writes, ticks, outages, restarts)
     "failcreate": ("1", 3, 4, 1, 0),
     "threefiles": ("1", 3, 4, 0, 0),
     "restart":    ("1", 2, 2, 0, 1),
+    "retry2":     ("1, 2", 5, 8, 0, 0),     # one write hits a closed file twice (four rotations); searched along RollingGoals!Lane
 }
 
 
@@ -43,6 +44,8 @@ def run(ctx, focus, lite=False, rep=None):
           ("MC_Rolling_restart", dict(writers="1", writes=3, ticks=4, outages=1, restarts=1))]
     if lite:
         mc = mc[:1]
+    if lite == "witness":        # C03 / C20: only the witness behaviours are replayed
+        mc = []
     for name, kw in mc:
         write_cfg(ctx, name, **kw)
         ctx.tlc("Rolling", name, timeout=3000)
@@ -51,12 +54,16 @@ def run(ctx, focus, lite=False, rep=None):
     for goal, (wr, writes, ticks, out, rst) in GOALS.items():
         name = "Goal_Rolling_" + goal
         write_cfg(ctx, name, writers=wr, writes=writes, ticks=ticks, outages=out, restarts=rst,
-                  extra='          Goal = "%s"' % goal, inv="NotGoal", props="")
+                  extra='          Goal = "%s"' % goal, inv="NotGoal", props="CONSTRAINT Lane")
         tj = os.path.join(ctx.scratch, "trace_%s.json" % goal)
         r = ctx.tlc("RollingGoals", name, timeout=1500, extra=["-dumpTrace", "json", tj], expect_violation=True)
         if not r.violation or not os.path.exists(tj):
             raise vf.Infra("witness goal %s is unreachable in the specification (vacuous)" % goal)
         cases.append(rolltrace.convert(tj, 2, goal))
+    if lite == "witness":
+        rep.absorb(ctx.vh_sharded("rollreplay", cases, shards=4, timeout=1500))
+        rep.extra["witness_goals"] = sorted(GOALS)
+        return rep, cases
     # 3. simulated behaviours
     write_cfg(ctx, "Gen_Rolling_sim", writers="1, 2, 3, 4" if thorough else "1, 2", writes=10 if thorough else 6,
               ticks=12, outages=3 if thorough else 2, restarts=1,
